@@ -76,11 +76,22 @@ def run(chk, rules=None, as_prop=None):
     cache = repo.mod("pipe.cache")
     rs = cache.func("Cache.requires_subquery")
     guards, polars_exit = parse_guards(sym, cache, rs)
-    chk.floor("G1", "guards parsed from requires_subquery", len(guards), 12)
     chk.extra_cov["guards"] = [repr(g) for g in guards]
+    # the hazard table and the never-needs-a-subquery class are decided on the typestate exploration (G9); the parsed shape of
+    # the guards (G1 / G5) is only consulted when Cache.update / requires_subquery cannot be interpreted
+    from .. import cachesim as _cs
+    from ..model import model_of as _mo8
+
+    try:
+        _cs.explore(chk, _mo8(chk))
+        typestate_decided = True
+        chk.ok("G1", cache, rs, "hazard table: decided by the typestate exploration (G9)")
+    except AnalysisError:
+        typestate_decided = False
+        chk.floor("G1", "guards parsed from requires_subquery", len(guards), 12)
 
     # ---- G1
-    for req in REQUIRED:
+    for req in REQUIRED if not typestate_decided else ():
         atom, scope, verb, needs_fn, why = req
         cov = [g for g in guards if covers(g, req)]
         label = f"{atom}{'(' + scope + ')' if scope else ''} x {verb}{'[window/aggregate fn]' if needs_fn else ''}"
@@ -104,7 +115,7 @@ def run(chk, rules=None, as_prop=None):
            "requires_subquery no longer exempts the Polars back end before looking at any state")  # fmt: skip
 
     # ---- G5 over-eagerness
-    for g in guards:
+    for g in guards if not typestate_decided else ():
         if g.verbs is None:
             vs = BENIGN_VERBS
         else:
